@@ -18,7 +18,7 @@ GEN_DEPS = []
 RULE = ('application trees: 1-6 routes per application (static / param segments, root route), 1-5 methods per route each with any of the 28 catalogue handlers (every IntoHandler shape) that fits the '
         'number of captured params, 0-3 fangs per application and 0-2 per route drawn from plain / jwt / basic / tag, mounts up to depth 2 with static and param prefixes, in 30 % of mounts one route of the mounted application is registered by the parent too under other methods; '
         'non-trivial = a mount with a param prefix, or an authentication fang, or a handler with extractors')
-ASSUMPTIONS = ['param names are distinct along one path and non-empty, and one param position of one route pattern carries one name (OpenAPI treats /u/{id} and /u/{uid} as the same path); route literals hold no "{" "}" (hypothesis `clean` of template_inj)',
+ASSUMPTIONS = ['param names are distinct along one path (the trees of the generator; one that repeats a name across a mount is in the corpus: known finding KF-C15-duplicate-param-name) and non-empty, and one param position of one route pattern carries one name (OpenAPI treats /u/{id} and /u/{uid} as the same path); route literals hold no "{" "}" (hypothesis `clean` of template_inj)',
                'JWT and BasicAuth around one handler both read the Authorization header, so no request can satisfy both: such operations are documented and compared, but not probed']
 SIGS = {0: dict(path=[], query=[], body=None, responses=[200]),
         1: dict(path=['integer'], query=[], body=None, responses=[200]),
@@ -156,7 +156,8 @@ def corpus():
     C = lambda app: {'case': {'app': app, 'sigs': SIGS_J}}
     R = lambda route, methods, local=(): {'route': route, 'methods': methods, 'local': list(local)}
     J, B, T, P = {'k': 'jwt', 'id': 0}, {'k': 'basic', 'id': 0}, {'k': 'tag', 'id': 1}, {'k': 'plain', 'id': 1}
-    return [C({'fangs': [T], 'items': [R('/', {'GET': 0}), R('/users/:id', {'GET': 1, 'PUT': 5}, [J]),
+    return [C({'fangs': [], 'items': [{'mount': '/:id', 'app': {'fangs': [], 'items': [R('/items/:id', {'GET': 2})]}}]}),          # known finding KF-C15-duplicate-param-name
+            C({'fangs': [T], 'items': [R('/', {'GET': 0}), R('/users/:id', {'GET': 1, 'PUT': 5}, [J]),
                                         {'mount': '/api/:v', 'app': {'fangs': [B], 'items': [R('/items/:a/:b', {'GET': 2}), R('/search', {'GET': 3, 'POST': 4}),
                                                                                              R('/x/:k', {'POST': 8, 'PATCH': 6, 'PUT': 7, 'DELETE': 9, 'GET': 11}), R('/opt', {'POST': 10})]}}]}),
             C({'fangs': [], 'items': [{'mount': '/:tenant', 'app': {'fangs': [P, J, T], 'items': [R('/', {'GET': 1}), R('/:id', {'GET': 2, 'POST': 5}),
@@ -278,6 +279,14 @@ def judge(case, out, m):
         if 'responses' in op and not op['responses']: v.append(('violation', f'{where}: an empty `responses` object (when present it MUST contain at least one response code, OpenAPI 3.1 4.8.16)'))
         for code, r in op.get('responses', {}).items():
             for mime, c in r.get('content', {}).items(): v += [('violation', 'invalid schema: ' + e) for e in schema_errors(c.get('schema', {}), doc, where + ' response ' + code)]
+        # a parameter is identified by name and location: the list MUST NOT hold duplicates, and a template names each variable once (OpenAPI 3.1 4.8.10, 4.8.8)
+        pkeys = [(p.get('name'), p.get('in')) for p in op.get('parameters', [])]
+        tvars = re.findall(r'\{([^}]*)\}', t)
+        if len(pkeys) != len(set(pkeys)) or len(tvars) != len(set(tvars)):
+            why = f'{where}: duplicated parameters {sorted({k for k in pkeys if pkeys.count(k) > 1})} / template variables {sorted({x for x in tvars if tvars.count(x) > 1})}'
+            # the application itself names two params of one route alike (possible across a mount: `/:id` mounted over `/items/:id`): the document just copies the names
+            if len(tvars) != len(set(tvars)): v.append(('violation', why, 'KF-C15-duplicate-param-name'))
+            else: v.append(('violation', why))
         declared = {p['name'] for p in op.get('parameters', []) if p.get('in') == 'path' and p.get('required') is True}
         for name in re.findall(r'\{([^}]*)\}', t):
             if name not in declared: v.append(('violation', f'{where}: {{{name}}} of the template is not declared as a required path parameter'))
